@@ -491,6 +491,13 @@ func (i *indexImpl) Search(req *SearchRequest) (sr *SearchResult, err error) {
 
 // returns the set of file callback writer ids in use by the index
 func (i *indexImpl) FileWriterIDsInUse() (map[string]struct{}, error) {
+	i.mutex.RLock()
+	defer i.mutex.RUnlock()
+
+	if !i.open {
+		return nil, ErrorIndexClosed
+	}
+
 	ids := map[string]struct{}{i.meta.fileReader.Id(): {}}
 
 	if cidx, ok := i.i.(IndexWithCallbacks); ok {
@@ -515,6 +522,10 @@ func (i *indexImpl) FileWriterIDsInUse() (map[string]struct{}, error) {
 // re-processes data with the latest file callback writer id
 func (i *indexImpl) DropFileWriterIDs(ids map[string]struct{}) error {
 	i.mutex.Lock()
+	if !i.open {
+		i.mutex.Unlock()
+		return ErrorIndexClosed
+	}
 	if _, ok := ids[i.meta.fileReader.Id()]; ok {
 		var err error
 		err = i.meta.UpdateWriter(i.path)
@@ -524,6 +535,13 @@ func (i *indexImpl) DropFileWriterIDs(ids map[string]struct{}) error {
 		}
 	}
 	i.mutex.Unlock()
+
+	i.mutex.RLock()
+	defer i.mutex.RUnlock()
+
+	if !i.open {
+		return ErrorIndexClosed
+	}
 
 	if cidx, ok := i.i.(IndexWithCallbacks); ok {
 		return cidx.DropFileWriterIDs(ids)
